@@ -588,6 +588,9 @@ func run(args []string, k, kf int, fileOnly, plain bool, logPath string, timeout
 		return 3
 	case timedOut:
 		return 4
+	case !armed:
+		fmt.Fprintln(os.Stderr, "ptkill: the launcher never reached the command")
+		return 5
 	}
 	return 0
 }
